@@ -71,7 +71,7 @@ def cmd_check(a):
                               "detail": "two executions of the same concrete case produced different event logs"})
             r["case"] = prof.generate(seed, tier, r["index"])
     idx = list(range(a.start + nsmoke, a.start + n))
-    recs = first + runner.run_pool(pid, tier, seed, idx, libs, timeout)
+    recs = first + runner.run_pool(pid, tier, seed, idx, libs, timeout, stop_after_timeouts=10 if tier == "quick" else 40)
     rc = finish(pid, tier, seed, prof, recs, libs, timeout, known, t0, a, extra_cov={"determinism_smoke_cases": nsmoke})
     if nondet:
         print("NONDETERMINISM: event logs of cases %s differ between two executions of the same concrete case" % nondet[:10])
@@ -120,13 +120,15 @@ def finish(pid, tier, seed, prof, recs, libs, timeout, known, t0, a, extra_cov=N
             small, v2 = (case, v)
             if not a.no_shrink:
                 try:
-                    small, v2 = shrink.minimise(prof, case, v, libs, timeout)
+                    small, v2 = shrink.minimise(prof, case, v, libs, timeout,
+                                                seconds=40.0 if v.get("class") == "timeout" else 90.0)
                 except Exception:
                     traceback.print_exc()
             # replay must reproduce before the violation is reported
             path = runner.write_replay(pid, seed, small, v2, None)
-            ok, viol2, digest, _ = runner.replay_file(path, libs, timeout * 4)
-            ok2, viol3, digest2, _ = runner.replay_file(path, libs, timeout * 4)
+            rto = timeout * (2 if v2.get("class") == "timeout" else 4)     # (a hang is waited for in full, twice)
+            ok, viol2, digest, _ = runner.replay_file(path, libs, rto)
+            ok2, viol3, digest2, _ = runner.replay_file(path, libs, rto)
             if not (ok and ok2) and v2.get("class") == "crash":
                 # crashes that stem from memory corruption depend on heap state: a few more attempts, and if the crash
                 # stays elusive it is reported as such (the original observation is recorded in the replay file)
@@ -152,13 +154,13 @@ def finish(pid, tier, seed, prof, recs, libs, timeout, known, t0, a, extra_cov=N
                     path = runner.write_replay(pid, seed, small, v2, digest)
                 else:
                     print("HARNESS-ERROR violation %s of case %d did not reproduce on replay (%s)" % (key, r["index"], path))
-                    exit_code = 2
+                    if exit_code == 0:
+                        exit_code = 2
                     continue
             print("VIOLATION property=%s replay=%s" % (pid, path))
             print("  oracle=%s class=%s case=%d\n  %s" % (v2.get("oracle"), v2.get("class"), r["index"],
                                                          str(v2.get("detail"))[:1500].replace("\n", "\n  ")))
-            if exit_code == 0:
-                exit_code = 1
+            exit_code = 1       # a reproduced violation decides the run, whatever else did not reproduce
     ginfo = {}
     if hasattr(prof, "global_check"):
         gv, ginfo = prof.global_check(total)
